@@ -18,9 +18,9 @@ ALL = ["C%02d" % i for i in range(1, 21)]
 
 
 RELATED = {
-    "C01": ["C01", "C02", "C03", "C04"], "C02": ["C02", "C01", "C03", "C04", "C20"], "C03": ["C03", "C01", "C06", "C08", "C04"],
+    "C01": ["C01", "C02", "C03"], "C02": ["C02", "C01", "C03", "C20"], "C03": ["C03", "C01", "C06", "C08"],
     "C04": ["C04", "C02", "C10", "C11", "C12", "C20"], "C05": ["C05", "C13"], "C06": ["C06", "C08", "C19"], "C07": ["C07", "C14", "C18"],
-    "C08": ["C08", "C06", "C09"], "C09": ["C09", "C08"], "C10": ["C10", "C04"], "C11": ["C11", "C04"], "C12": ["C12", "C04"],
+    "C08": ["C08", "C06", "C09"], "C09": ["C09", "C08"], "C10": ["C10"], "C11": ["C11"], "C12": ["C12"],
     "C13": ["C13", "C05"], "C14": ["C14", "C07"], "C15": ["C15"], "C16": ["C16"], "C17": ["C17", "C18"], "C18": ["C18", "C17"],
     "C19": ["C19", "C06"], "C20": ["C20", "C02", "C01"],
 }
@@ -62,7 +62,7 @@ def main():
         elif args[i] == "--with-c04":
             with_c04 = [x for x in args[i + 1].split(",") if x]
         i += 2
-    dirs = sorted(d for d in glob.glob(VERIF + "/seeded/C*-m*") if os.path.exists(d + "/patch.diff"))
+    dirs = sorted(d for d in glob.glob(VERIF + "/seeded/C*-*m[0-9]") if os.path.exists(d + "/patch.diff"))
     if only:
         dirs = [d for d in dirs if os.path.basename(d) in only]
     work = []
@@ -87,7 +87,7 @@ def main():
 
 
 def write_matrix():
-    dirs = sorted(d for d in glob.glob(VERIF + "/seeded/C*-m*") if os.path.exists(d + "/meta.json"))
+    dirs = sorted(d for d in glob.glob(VERIF + "/seeded/C*-*m[0-9]") if os.path.exists(d + "/meta.json"))
     lines = ["# Which checks catch which seeded breaks (quick tier)", "",
              "`X` = the check exits 1 with a VIOLATION line on the break, `.` = it stays silent, blank = not run.",
              "Every break compiles, passes the repository's own suite and fails its demonstration (see each `meta.json`).", "",
